@@ -39,7 +39,7 @@ def _phase_and_fold():
 
 class RecordingLDA(ClassifierMixin, BaseEstimator):
     def __init__(self, tag_idx=None, order_frac=None, ridge=1e-2, mode="good", fold_tags=None, noise_seed=0,
-                 record=True):
+                 record=True, round_out=None):
         self.tag_idx = tag_idx
         self.order_frac = order_frac
         self.ridge = ridge
@@ -47,6 +47,7 @@ class RecordingLDA(ClassifierMixin, BaseEstimator):
         self.fold_tags = fold_tags  # C07: list of held-out tag lists per fold; mode may be a list per fold
         self.noise_seed = noise_seed
         self.record = record
+        self.round_out = round_out  # decimals: a coarse output scale produces exact ties between PSMs
 
     # ------------------------------------------------------------- helpers
     def _split(self, X):
@@ -136,6 +137,8 @@ class RecordingLDA(ClassifierMixin, BaseEstimator):
             noisy = out + 1.5 * self.noise_scale_ * _hash_noise(tags, self.noise_seed) * 1.7320508
             memo = self.memo_
             out = np.array([memo.get(int(t), float(v)) for t, v in zip(tags, noisy)])
+        if self.round_out is not None:
+            out = np.round(out, int(self.round_out))
         if transform is not None:
             out = transform(out)
         if self.record and tags is not None:
